@@ -389,7 +389,7 @@ def campaigns(tier, seed):
     return [
         Campaign("documents-coverage-guided", F.fuzz_campaign("rawdoc", runs=(2500, 150000), max_len=120, dictionary=FUZZ_DICT,
                                                               corpus=["\x01<a href=\"http://a.com/x\">x</a> <a class=c href='/rel'>y</a><script><a href=\"http://js.com\"></script>",
-                                                                      "\x07<A HREF=//c.net/p title=t>z <a href=\"http://www.site.com/dir/page.html#f\">"]), "atheris",
+                                                                      "\x07<A HREF=//c.net/p title=t>z <a href=\"http://www.site.com/dir/page.html#f\">"]), F.ENGINE,
                  bounds="libFuzzer over 1 option byte + a UTF-8 document <= 119 bytes: str / bytes agreement, nothing raises, every yielded link satisfies the validity clauses"),
         Campaign("documents-exhaustive", _enum, "enumeration", exhaustive=True,
                  bounds="every document of <=%d elements over a %d-element pool (single elements under all 8 option sets x 5 bases; longer ones rotate them)%s" % (
